@@ -87,7 +87,7 @@ func (h *HarnessRun) push(prefix []int, m Model) {
 
 func newExec(e *Engine, h *HarnessRun, s *Solver, decisions []int) *Exec {
 	return &Exec{eng: e, h: h, solver: s, decisions: decisions, covers: map[string]bool{},
-		funcsSeen: map[*ssa.Function]bool{}, stubsHit: map[string]bool{}, knownHit: map[string]bool{}}
+		funcsSeen: map[*ssa.Function]bool{}, stubsHit: map[string]bool{}, knownHit: map[string]bool{}, mapSite: -1}
 }
 
 func (h *HarnessRun) runPath(s *Solver, wi workItem) (res PathResult) {
